@@ -580,7 +580,18 @@ def concrete_main():
         if not line:
             continue
         job = json.loads(line)
-        print(json.dumps(concrete_job(pk, job)), flush=True)
+        # every job runs in a child forked from the pristine unpatched package: module-level state never leaks between jobs
+        sys.stdout.flush()
+        pid = os.fork()
+        if pid == 0:
+            try:
+                out = json.dumps(concrete_job(pk, job))
+            except BaseException as e:  # noqa: BLE001
+                out = json.dumps({"exception": "HarnessError", "message": repr(e)[:300], "outputs": None, "failed": [], "assumptions_ok": True})
+            sys.stdout.write(out + "\n")
+            sys.stdout.flush()
+            os._exit(0)
+        os.waitpid(pid, 0)
 
 
 def concrete_job(pk, job):
